@@ -49,6 +49,9 @@ def run(rep, tier):
             rep.violation(sig, {"schema": job["schema"], "queries": job["queries"], "config": job["config"], "q": "import"},
                           f"emitted package does not load: {[v for v in r['import']['modules'].values() if v != 'ok'][:2]}")
     # ---- @mixin placements (E-X)
+    import os
+
+    os.environ["VERIF_C08_THOROUGH"] = "0" if tier == "quick" else "1"
     from harness import C08_mixin as HM
 
     parts = xh.write_module("hC08_parts", HM.parts_source())
@@ -62,7 +65,7 @@ def run(rep, tier):
     xh.fold(rep, oparts, [r for r in xres if r.target.startswith(oparts)])
     xh.fold(rep, "harness.C08_mixin", [r for r in xres if r.target.startswith("harness.C08_mixin")])
     xh.fold(rep, "harness.C08_order", [r for r in xres if r.target.startswith("harness.C08_order")])
-    rep.coverage["mixin_placement_subsets"] = 2 ** HM.NS
+    rep.coverage["mixin_placement_subsets"] = 2 ** (HM.NS if tier != "quick" else HM.NS - 2)
     rep.coverage["mixin_harness_results"] = [{"target": r.target.rsplit(".", 1)[-1], "status": r.status, "wall_s": round(r.wall, 1)} for r in xres]
     rep.coverage.update({
         "programs": progs, "packages": len(jobs), "operations": ops, "fragment_spread_sites": sites, "packages_not_analysed": gen_fail,
@@ -71,7 +74,7 @@ def run(rep, tier):
         "explanation": "per qualifying spread site: z3 unsat of (Conf & live & selected-class-not-subclass) and of (Conf & live & !Acc_F(sub-payload)); plus import of every emitted package",
     })
     rep.assume("qualifying spread = direct child of the selection set, no @skip/@include, fragment type == selection type, fragment without inline fragments",
-               "@mixin: every subset of 7 placement sites (plain field, field spreading a fragment, nested in an inline fragment, fragment definition, fragment spreading a fragment, two mixins, list field) x definition order is explored by CrossHair (harness/C08_mixin.py); symbolic set-iteration orders of the fragment sort are covered by C10",
+               "@mixin: every subset of 9 placement sites (plain field, field spreading a fragment, nested in an inline fragment, fragment definition, fragment spreading a fragment, two mixins, list field, the same mixin on two sibling fields / on a field and a field below it) x definition order is explored by CrossHair (harness/C08_mixin.py); symbolic set-iteration orders of the fragment sort are covered by C10",
                "ordering kernel: every assignment of {no edge, top-level spread, nested spread} to the 6 pairs of 4 fragments (names chosen so that every lexicographic relation occurs) x both definition orders through the real FragmentsGenerator; the emitted module must define bases before use and must exec (harness/C08_order.py)")
 
 
